@@ -68,7 +68,7 @@ func ruleTrimCollinear(rule string) func(*Ctx) {
 				"the appended vertex is an element of the input path (path[k] through copies)", "the appended vertex is not taken from the input path: "+els[0].String(),
 				"the result must be a sub-sequence of the input: a computed or foreign vertex changes the polygon")
 		}
-		c.floor(rule+".subseq", n, 4)
+		c.floor(rule+".subseq", n, 2)
 		// only-collinear: in the main scan a vertex is skipped exactly when isCollinear(lastKept, path[i], path[i+1]) holds
 		loops := naturalLoops(f)
 		var main *loopInfo
@@ -137,6 +137,14 @@ func ruleTrimCollinear(rule string) func(*Ctx) {
 					i1, ok1 := loadsOfParam(a[1], path, map[ssa.Value]bool{})
 					i2, ok2 := loadsOfParam(a[2], path, map[ssa.Value]bool{})
 					_, ok0 := loadsOfParam(a[0], path, map[ssa.Value]bool{})
+					lastOfResult := false // result[len(result)-1]: the last kept vertex read back from the output
+					if u, isU := a[0].(*ssa.UnOp); isU && u.Op == token.MUL {
+						if ia, isIA := u.X.(*ssa.IndexAddr); isIA && paramOf(ia.X) == nil && isLenMinus1(ia.Index, ia.X) {
+							if _, fromPath := loadsOfParam(ia.X, path, map[ssa.Value]bool{}); !fromPath {
+								lastOfResult, ok0 = true, true
+							}
+						}
+					}
 					badT := ""
 					switch {
 					case !ok0 || !ok1 || !ok2 || len(i1) != 1 || len(i2) != 1:
@@ -144,7 +152,7 @@ func ruleTrimCollinear(rule string) func(*Ctx) {
 					case !isPlusOne(i2[0], i1[0]):
 						badT = "the second and third tested points are not path[i], path[i+1]"
 					default:
-						if _, isPhi := a[0].(*ssa.Phi); !isPhi {
+						if _, isPhi := a[0].(*ssa.Phi); !isPhi && !lastOfResult {
 							badT = "the first tested point is not the last KEPT vertex (a loop-carried value)"
 						}
 					}
@@ -155,7 +163,26 @@ func ruleTrimCollinear(rule string) func(*Ctx) {
 		}
 		// wrap-around prologue: the anchor vertex of each scan is fixed while the scan moves
 		pro := 0
+		type ploop struct {
+			l    *loopInfo
+			path *ssa.Parameter
+		}
+		var pls []ploop
 		for _, l := range loops {
+			pls = append(pls, ploop{l, path})
+		}
+		for _, g := range freshRegion(c, f)[1:] { // the prologue may have been moved into a helper
+			for _, gp := range g.Params {
+				if typeName(gp.Type()) == "Path64" {
+					for _, l := range naturalLoops(g) {
+						pls = append(pls, ploop{l, gp})
+					}
+					break
+				}
+			}
+		}
+		for _, pl := range pls {
+			l, path := pl.l, pl.path
 			if l == main {
 				continue
 			}
